@@ -598,6 +598,19 @@ func (r *SqlManager) Rollback(ctx context.Context) {
 		if err != nil {
 			return err
 		}
+		// The document versions of a transaction may have been stamped in different seconds: a transaction is decided on as a whole,
+		// so load all changes of the transactions found above, also those that aren't older than a minute yet.
+		if len(changes) > 0 {
+			transactionIDs := make([]string, 0, len(changes))
+			for _, change := range changes {
+				transactionIDs = append(transactionIDs, change.TransactionID)
+			}
+			changes = changes[:0]
+			err = tx.Preload("DIDDocumentVersion").Preload("DIDDocumentVersion.DID").Where("transaction_id IN ?", transactionIDs).Find(&changes).Error
+			if err != nil {
+				return err
+			}
+		}
 		// group on transaction_id
 		for _, change := range changes {
 			groupedChanges[change.TransactionID] = append(groupedChanges[change.TransactionID], change)
